@@ -238,7 +238,10 @@ func loadCorpus() {
 				corpusList = append(corpusList, corpusEntry{e.Name(), d})
 			}
 		}
+		corpusList = append(corpusList, fontCorpus("base1", bases[1])...)
 		corpusList = append(corpusList, objStmCorpus()...)
+		corpusList = append(corpusList, fontCorpus("base0", bases[0])...)
+		corpusList = append(corpusList, dctCorpus("base0", bases[0])...)
 		for i, d := range bases {
 			vs := objStmVariants(fmt.Sprintf("base%d", i), d)
 			corpusList = append(corpusList, vs...)
@@ -707,9 +710,10 @@ func main() {
 		case "crash":
 			// a fatal error (stack overflow, out of memory ...) cannot be recovered
 			// in-process: run the case alone and look at how the process dies
-			if confirmed["fatal"] >= 3 {
+			if confirmed["fatal-runs"] >= 12 {
 				continue
 			}
+			confirmed["fatal-runs"]++
 			cmd := exec.Command(self, "-dir", e.Dir, "-one", strconv.Itoa(l.Idx))
 			var stderr bytes.Buffer
 			cmd.Stderr = &stderr
@@ -718,7 +722,6 @@ func main() {
 				unconfirmed++
 				continue
 			}
-			confirmed["fatal"]++
 			first := strings.SplitN(strings.TrimSpace(stderr.String()), "\n", 2)[0]
 			sig := "fatal-crash"
 			switch {
@@ -728,6 +731,16 @@ func main() {
 				sig = "fatal-crash:out-of-memory"
 			}
 			l.Stack = fatalFrames(stderr.String())
+			if sig == "fatal-crash:stack-overflow" && strings.Contains(l.Stack, "lengthGetter.Get") &&
+				strings.Contains(l.Stack, "ReadStreamData") && strings.Contains(l.Stack, "getFromObjStm") {
+				// the recursion through the indirect /Length of a stream-shaped
+				// member of an object stream (findings/C05.json)
+				sig = "fatal-crash:stack-overflow:indirect-length-of-stream-shaped-objstm-member"
+			}
+			if confirmed[sig] >= 3 {
+				continue
+			}
+			confirmed[sig]++
 			if l.File == "" {
 				if d, _ := caseBytes(p[l.Idx], l.Idx); d != nil {
 					l.File = filepath.Join(e.Dir, fmt.Sprintf("suspect-%d.pdf", l.Idx))
@@ -794,7 +807,7 @@ func fatalFrames(tr string) string {
 	for _, ln := range strings.Split(tr, "\n") {
 		if strings.HasPrefix(ln, "seehuhn.de/go/pdf") || strings.HasPrefix(ln, "main.") {
 			out = append(out, ln)
-			if len(out) >= 14 {
+			if len(out) >= 40 {
 				break
 			}
 		}
